@@ -39,8 +39,9 @@ fn main() {
         // filtered loading with the same pure filters (see flt.rs)
         if i < nflt {
             if let Ok(Ok(plain)) = std::panic::catch_unwind(|| lopdf::Document::load_mem(&bytes)) {
+                let deferred = !lopdf::verif_hooks::observed_deferred_order().is_empty();
                 for k in 0..flt::NFILTERS {
-                    let ghosts: Vec<u32> = match flt::expectation(&plain, k) {
+                    let ghosts: Vec<u32> = match flt::expectation(&plain, k, deferred) {
                         Some(e) => e["ghosts"].as_array().unwrap().iter().map(|x| x.as_u64().unwrap() as u32).collect(),
                         None => continue,
                     };
